@@ -132,6 +132,17 @@ def job_forest(payload):
             out["shapes"][shape] = out["shapes"].get(shape, 0) + 1
             bad = []
             compare(truth, eng, "%s (shape %s, seed %d/%d)" % (os.path.basename(path), shape, seed, i), bad)
+            # the unit's own offset is where its header starts; a DIE's `unit` is that same unit
+            ro = d.run("raw unit [offset, root unit offset, (root child unit offset || -1)]", inp="d:" + common.hx(path), fuel=0, max=100000, timeout=600)
+            want = [u.offset for u in f.units if u.root is not None]
+            if ro["st"] != "done":
+                bad.append(("raw-view-query-failed", dict(file=path, shape=shape, err="unit offset: %s" % ro.get("msg"))))
+            else:
+                got = [[num(x) for x in seqvals(st[-1])] for st in ro["res"]]
+                if [g[0] for g in got] != want:
+                    bad.append(("unit-offset-differs", dict(file=path, shape=shape, want=want[:12], got=[g[0] for g in got][:12])))
+                elif any(g[1] != g[0] or g[2] not in (-1, g[0]) for g in got):
+                    bad.append(("unit-of-its-own-DIE-differs", dict(file=path, shape=shape, got=got[:12])))
             out["bad"] += bad[:4]
             if not bad:
                 os.unlink(path)
